@@ -204,6 +204,23 @@ class Builder(Family):
         again = CScript(list(s))
         if bytes(again) != want:
             raise Viol('CScript(list(script)) does not reproduce the bytes', want[:200], bytes(again)[:200])
+        if any(t[0] == 'data' for t in toks):
+            # byte strings may be given as bytearray as well
+            ba = [bytearray(t) if isinstance(t, bytes) and not isinstance(t, CScript) and type(t) is bytes else t for t in libtoks]
+            s2 = CScript(ba)
+            inc2 = CScript()
+            for t in ba:
+                inc2 = inc2 + t
+            if bytes(s2) != want or bytes(inc2) != want:
+                raise Viol('CScript built from bytearray tokens differs', want[:200], bytes(s2)[:200])
+        # building from a lazy iterable that itself builds other scripts while it is consumed (re-entrant construction)
+        def gen():
+            for t in libtoks:
+                CScript([t, t])                 # another script is built while the outer build is in progress
+                yield t
+        s3 = CScript(gen())
+        if bytes(s3) != want:
+            raise Viol('CScript built from a generator that constructs other scripts while being consumed differs', want[:200], bytes(s3)[:200])
         return 'ok', any(t[0] != 'op' for t in toks)
 
 
@@ -257,7 +274,7 @@ def check_script_bytes(b):
         v = s.witness_version()
         if v != RS.witness_version(b) or isinstance(v, CScriptOp):
             raise Viol('witness_version(%s)' % b.hex()[:80], RS.witness_version(b), repr(v))
-    for acc in (False, True):
+    for acc in (False, True, False, True, True, False):
         w = RS.sigop_count(b, acc)
         try:
             g = s.GetSigOpCount(acc)
@@ -270,6 +287,12 @@ def check_script_bytes(b):
             raise Viol('GetSigOpCount(%s) on %s raised %s' % (acc, b.hex()[:80], type(e).__name__), w, '%s: %s' % (type(e).__name__, e), cls)
         if g != w:
             raise Viol('GetSigOpCount(%s) on %s' % (acc, b.hex()[:80]), w, g)
+    s2 = CScript(b)
+    if s2.GetSigOpCount(True) != RS.sigop_count(b, True) or s2.GetSigOpCount(False) != RS.sigop_count(b, False):
+        raise Viol('GetSigOpCount accurate-then-legacy on a fresh object for %s' % b.hex()[:80], (RS.sigop_count(b, True), RS.sigop_count(b, False)), None)
+    for name, w in preds:
+        if getattr(s, name)() != w:
+            raise Viol('%s(%s) changed its answer on the second call' % (name, b.hex()[:80]), w, not w)
     if bad:
         label.append('malformed')
     return ','.join(label) or 'plain'
